@@ -228,7 +228,18 @@ def kani_prepare(repo=None):
     fcntl.flock(lock, fcntl.LOCK_EX)
     try:
         # drop stale scratch copies (disk is limited)
-        stale = [x for x in os.listdir(WORK) if x.startswith("kani-") and x != "kani-" + hh]
+        stale = []
+        for x in os.listdir(WORK):
+            if x.startswith("kani-") and not x.endswith(".inuse") and x != "kani-" + hh:
+                # never touch a scratch copy that a concurrent check is still using
+                try:
+                    lf = open(os.path.join(WORK, x + ".inuse"), "w")
+                    fcntl.flock(lf, fcntl.LOCK_EX | fcntl.LOCK_NB)
+                    fcntl.flock(lf, fcntl.LOCK_UN)
+                    lf.close()
+                    stale.append(x)
+                except OSError:
+                    pass
         fresh = not os.path.exists(os.path.join(sc, ".prepared"))
         if fresh:
             shutil.rmtree(sc, ignore_errors=True)
@@ -241,6 +252,10 @@ def kani_prepare(repo=None):
                     os.rename(t, os.path.join(sc, "target"))
         for x in stale:
             shutil.rmtree(os.path.join(WORK, x), ignore_errors=True)
+            try:
+                os.remove(os.path.join(WORK, x + ".inuse"))
+            except OSError:
+                pass
         if fresh:
             rc, o, e, _ = sh(["rsync", "-a", "--exclude", "target", "--exclude", ".git", "--exclude", "fuzz",
                               "--exclude", "assets", "--exclude", "bindings", "--exclude", "docs",
@@ -258,9 +273,17 @@ def kani_prepare(repo=None):
                     fh.write(txt)
                 appended.append({"module": name, "target": target, "status": "ok"})
             json.dump(appended, open(os.path.join(sc, ".prepared"), "w"))
+        # shared "in use" lock, held until this process exits
+        global _INUSE
+        lf = open(sc + ".inuse", "w")
+        fcntl.flock(lf, fcntl.LOCK_SH)
+        _INUSE.append(lf)
     finally:
         fcntl.flock(lock, fcntl.LOCK_UN)
     return sc
+
+
+_INUSE = []
 
 
 _blk = re.compile(r"Checking harness (\S+?)\.\.\.")
@@ -309,6 +332,9 @@ def parse_kani(out):
             r["covers"] = int(m.group(2))
         if "VERIFICATION:- SUCCESSFUL" in t:
             r["status"] = "ok"
+        elif "CBMC timed out" in t or "out of memory" in t.lower():
+            r["status"] = "undecided"
+            r["reason"] = "timeout"
         elif "VERIFICATION:- FAILED" in t:
             r["status"] = "fail"
         elif "CBMC timed out" in t or "timed out" in t.lower():
